@@ -259,7 +259,7 @@ def run(chk):
     for i in range(n_rand):
         wrap = rng.choice(["space", "any", "any", "space", "clip"])
         wide = rng.random() < 0.3
-        chars = alph_simple + ("字" if wide else "")
+        chars = alph_simple + ("字" if wide else "") + ("\U0001F600" if wide and rng.random() < 0.5 else "")   # 3- and 4-byte characters
         is_bytes = rng.random() < 0.2
         enc = "utf-8"
         cfg = {"caption": rng.choice(["", "? ", "cap ", "c\n", "字 " if wide else "x"]),
@@ -288,6 +288,13 @@ def run(chk):
             traces.append(run_numeric(kind, opts, keys))
         except Exception as ex:  # noqa: BLE001  (constructor rejected the option combination)
             chk.count("numeric_constructor_rejected." + type(ex).__name__)
+    # ---- numeric variants: every key sequence of length <= L over a small alphabet (sign, digits, separator, moves, deletes) ----
+    nkeys = [keyrec("char", ord(c)) for c in "-10."] + [keyrec(k) for k in ("home", "end", "left", "backspace", "delete")]
+    L = 4 if quick else 5
+    for kind, opts in (("IntegerEdit", {"default": None, "base": 10, "neg": True}), ("FloatEdit", {"default": None, "neg": True, "sep": ".", "sig": True}),
+                       ("IntegerEdit", {"default": 10, "base": 10, "neg": False}), ("IntEdit", {"default": None})):
+        for seq in itertools.product(nkeys, repeat=L):
+            traces.append(run_numeric(kind, opts, list(seq)))
     res = tlc.validate("EditTrace", traces, batch_events=6000, timeout=2400)
     chk.add_tv("TV_EditTrace", res)
     _handle(chk, traces, res)
